@@ -489,3 +489,58 @@ func (c *Check) WhoCalls(target string, allowed []string, why string) bool {
 	c.OK("whocalls", key, desc, sites...)
 	return true
 }
+
+// LoopEffectBefore: within loop lp, every path from the body entry to any target
+// instruction executes an instruction matching pred first.
+func (c *Check) LoopEffectBefore(fn *ssa.Function, lp *Loop, targets []ssa.Instruction, pred func(ssa.Instruction) bool, name, what string) bool {
+	if fn == nil || lp == nil {
+		return false
+	}
+	key := shortName(fn) + "|loop:" + lp.Name + "|before:" + name
+	desc := fmt.Sprintf("in loop %s, %s is executed before the protected effect on every path (%s)", lp.Name, name, what)
+	cut := map[Edge]bool{}
+	var sites []string
+	blocked := map[int]bool{}
+	for bi := range lp.Blocks {
+		for _, ins := range fn.Blocks[bi].Instrs {
+			if pred(ins) {
+				blocked[bi] = true
+				sites = append(sites, instrPos(c.W, ins))
+			}
+		}
+	}
+	if len(blocked) == 0 || len(targets) == 0 {
+		c.Fail("loopbefore", key, desc, "effect or target not found", c.W.Pos(fn.Pos()))
+		return false
+	}
+	for bi := range blocked {
+		for _, s := range fn.Blocks[bi].Succs {
+			cut[Edge{bi, s.Index}] = true
+		}
+	}
+	seen := reachable(fn, lp.Body, cut)
+	for _, t := range targets {
+		tb := t.Block().Index
+		if blocked[tb] {
+			// same block: effect must precede target
+			ei, ti := -1, instrIndex(t)
+			for i, ins := range t.Block().Instrs {
+				if pred(ins) && ei < 0 {
+					ei = i
+				}
+			}
+			if ei >= 0 && ei < ti {
+				continue
+			}
+		}
+		if seen[tb] && !(blocked[tb]) {
+			c.Fail("loopbefore", key, desc, "target at "+instrPos(c.W, t)+" reachable without the effect: "+describePath(c.W, fn, lp.Body, cut, t.Block()), sites...)
+			return false
+		}
+		if blocked[tb] && lp.Body.Index != tb && !seen[tb] {
+			continue
+		}
+	}
+	c.OK("loopbefore", key, desc, sites...)
+	return true
+}
